@@ -56,6 +56,8 @@ try:
     rc1, out1, t = sh(demo_cmd, a.timeout)
     result['demo_with_patch'] = {'rc': rc1, 'seconds': round(t, 1), 'tail': out1[-600:]}
     os.remove(demo_dst)
+    # include files the change ADDS (intent-to-add makes them visible to git diff)
+    subprocess.run(['git', 'add', '-N', '.'], cwd=WT, capture_output=True)
     applied = subprocess.run(['git', 'diff'], cwd=WT, capture_output=True, text=True).stdout
     rc2, out2, t = sh('cargo test --workspace --no-fail-fast --offline 2>&1 | grep -E "^test result|^test .* FAILED|^error: test failed"', 1500)
     lines = out2.strip().splitlines()
